@@ -156,7 +156,41 @@ func normErr(err error) string {
 	return reLinePrefix.ReplaceAllString(err.Error(), "line N:")
 }
 
+// c18Pairs: hand-written pairs of layouts of one program that the generator does not make: a
+// ';' that ends an assignment in front of a statement starting with a bracket, and a template
+// whose last tag is never closed, with and without white space before the end of the input.
+func c18Pairs(b *core.B) {
+	for _, pr := range [][2]string{
+		{`<% let a = 1 %><% a = 3 %><% (up(cs)) %><%= a %>`, `<% let a = 1 %><% a = 3; (up(cs)) %><%= a %>`},
+		{`<% let a = 1 %><% a = 3 %><% [up(cs)] %><%= a %>`, `<% let a = 1 %><% a = 3; [up(cs)] %><%= a %>`},
+		{`<% let a = [1] %><% a[0] = 3 %><% (up(cs)) %><%= a %>`, `<% let a = [1] %><% a[0] = 3; (up(cs)) %><%= a %>`},
+		{`<% let a = 1 %><%= if (true) { %><% a = 3 %><% (up(cs)) %><% } %><%= a %>`, `<% let a = 1 %><%= if (true) { a = 3; (up(cs)) } %><%= a %>`},
+		{"x<%= up(cs) ", "x<%= up(cs)"},
+		{"x<%= up(cs) \n", "x<%=up(cs)"},
+		{"x<%= ci ", "x<%= ci"},
+		{"x<%= xs[0] ", "x<%= xs[0]"},
+		{"x<%= 5 ", "x<%=5"},
+		{"x<% let q = 5 ", "x<% let q = 5"},
+	} {
+		if !b.Begin(pr[0] + "\n=====\n" + pr[1]) {
+			continue
+		}
+		b.NonTrivialStr(pr[1])
+		b.Count("layout:hand-written-pairs")
+		r0, r1 := render(b, pr[0], progCtx(nil)), render(b, pr[1], progCtx(nil))
+		if r0.Pan != nil || r1.Pan != nil {
+			continue
+		}
+		if (r0.Err == nil) != (r1.Err == nil) || r0.Err == nil && r0.Out != r1.Out {
+			b.Violate("layout-changes-output|hand-written-pair", fmt.Sprintf("%q: %s\n%q: %s", pr[0], r0, pr[1], r1))
+		}
+	}
+}
+
 func c18Run(b *core.B) {
+	if b.Batch == 0 {
+		c18Pairs(b)
+	}
 	r := b.Rng(1)
 	nProg, nLay := 3000, 30
 	if b.Tier == core.Thorough {
